@@ -20,7 +20,7 @@ pub struct Case {
 
 pub struct C16;
 
-const UNITS: &[&str] = &[
+pub const UNITS: &[&str] = &[
     "a", "b", " ", "x", "ä", "ß", "中", "ー", "😀", "𝄞", "e\u{301}", "a\u{323}\u{308}", "👍🏽",
     "👩\u{200d}👩\u{200d}👧", "🇩🇪", "\r\n", "\n", "\u{301}", "한",
 ];
@@ -28,6 +28,11 @@ const UNITS: &[&str] = &[
 impl Prop for C16 {
     type Case = Case;
     const ID: &'static str = "C16";
+    const FUZZ_TARGET: Option<&'static str> = Some("windows_tile");
+    const FUZZ_RUNS: u64 = 3000000;
+    fn fuzz_decode(bytes: &[u8]) -> Option<Case> {
+        crate::fuzzdec::c16(bytes)
+    }
     const RULE: &'static str = "strings of 0-40 units mixing 1-4 byte characters and clusters of up to 25 bytes (plus arbitrary Unicode fragments) x max in 0..=24 or 2^20 x context 0..=8 (so invalid max <= 2*ctx and characters wider than the window are frequent) x {char, byte, full} x use_graphemes. Oracle: Err exactly for invalid configurations (byte mode: additionally allowed when some character is wider than max - 2*ctx, required-Ok when all characters fit); on Ok the windows tile 0..len, none empty, byte ranges concatenate to the text, context contains the window and is within max, str is the context slice, byte offsets equal the prefix sums of character byte lengths; substring helpers use the same arithmetic and are checked for bounds. Non-trivial: >= 3 windows over a text with a >= 3-byte character. Distinct = distinct serialised case.";
     const CLAIMS_TERMINATION: bool = true;
     const HANG_SECS: u64 = 20;
